@@ -37,23 +37,26 @@ const (
 	chanD = "channel-3"
 	base  = "uatom" // native denom sent over chanA; arrives on chanB as the voucher denomIn
 	quote = "uusdc" // the swap output denom
+	mid   = "uosmo" // intermediate denom of series routes
 )
 
 var proofHeight = clienttypes.NewHeight(0, 2)
 
 type env struct {
-	h        *apph.H
-	now      time.Time
-	denomIn  string // ibc/HASH(transfer/channel-1/uatom)
-	poolID   uint64
-	mod      sdk.AccAddress // swap module account
-	prov     sdk.AccAddress // interface provider named in memos
-	sender   sdk.AccAddress // remote sender of incoming packets
-	lp       sdk.AccAddress
-	rcv      []sdk.AccAddress // candidate receivers
-	far      sdk.AccAddress   // receiver of outgoing legs on the far end
-	relayer  string
-	nativeFn func() *ibckeeper.Keeper // IbcKeeperFn as wired by the application itself
+	h                     *apph.H
+	now                   time.Time
+	denomIn               string         // ibc/HASH(transfer/channel-1/uatom)
+	poolID                uint64         // first denomIn/uusdc pool
+	pools                 [3]uint64      // three denomIn/uusdc pools (branches of parallel routes)
+	poolInMid, poolMidOut uint64         // denomIn/uosmo and uosmo/uusdc (series hop)
+	mod                   sdk.AccAddress // swap module account
+	prov                  sdk.AccAddress // interface provider named in memos
+	sender                sdk.AccAddress // remote sender of incoming packets
+	lp                    sdk.AccAddress
+	rcv                   []sdk.AccAddress // candidate receivers
+	far                   sdk.AccAddress   // receiver of outgoing legs on the far end
+	relayer               string
+	nativeFn              func() *ibckeeper.Keeper // IbcKeeperFn as wired by the application itself
 }
 
 // step runs f as one transaction (all-or-nothing) at the harness clock and returns the events
@@ -201,20 +204,29 @@ func newEnv() *env {
 		return nil
 	})
 
-	// pool voucher/uusdc with a wide position around price 1
+	// pools: three denomIn/uusdc (branches of parallel routes), denomIn/uosmo and uosmo/uusdc (a series hop);
+	// each with a wide position around price 1
 	srv := lpkeeper.NewMsgServerImpl(a.LiquiditypoolKeeper)
-	e.must(func(ctx sdk.Context) error {
-		res, err := srv.CreatePool(ctx, &lptypes.MsgCreatePool{Authority: e.lp.String(), DenomBase: e.denomIn, DenomQuote: quote,
-			FeeRate: "0.003", PriceRatio: "1.0001", BaseOffset: "0.5"})
-		if err != nil {
+	mk := func(b, q, fee string) uint64 {
+		var id uint64
+		e.must(func(ctx sdk.Context) error {
+			res, err := srv.CreatePool(ctx, &lptypes.MsgCreatePool{Authority: e.lp.String(), DenomBase: b, DenomQuote: q,
+				FeeRate: fee, PriceRatio: "1.0001", BaseOffset: "0.5"})
+			if err != nil {
+				return err
+			}
+			id = res.Id
+			liq, _ := sdkmath.NewIntFromString("100000000000000000000")
+			_, err = srv.CreatePosition(ctx, &lptypes.MsgCreatePosition{Sender: e.lp.String(), PoolId: res.Id, LowerTick: -5000, UpperTick: 5000,
+				TokenBase: sdk.NewCoin(b, liq), TokenQuote: sdk.NewCoin(q, liq), MinAmountBase: sdkmath.ZeroInt(), MinAmountQuote: sdkmath.ZeroInt()})
 			return err
-		}
-		e.poolID = res.Id
-		liq, _ := sdkmath.NewIntFromString("100000000000000000000")
-		_, err = srv.CreatePosition(ctx, &lptypes.MsgCreatePosition{Sender: e.lp.String(), PoolId: res.Id, LowerTick: -5000, UpperTick: 5000,
-			TokenBase: sdk.NewCoin(e.denomIn, liq), TokenQuote: sdk.NewCoin(quote, liq), MinAmountBase: sdkmath.ZeroInt(), MinAmountQuote: sdkmath.ZeroInt()})
-		return err
-	})
+		})
+		return id
+	}
+	e.pools = [3]uint64{mk(e.denomIn, quote, "0.003"), mk(e.denomIn, quote, "0.001"), mk(e.denomIn, quote, "0.01")}
+	e.poolID = e.pools[0]
+	e.poolInMid = mk(e.denomIn, mid, "0.003")
+	e.poolMidOut = mk(mid, quote, "0.003")
 	return e
 }
 
@@ -362,4 +374,15 @@ func (e *env) pad(ch string, n uint64) {
 	for e.nextSeqSend(ch) < n {
 		e.sendTransfer(ch, e.lp, e.far.String(), sdk.NewCoin(quote, sdkmath.NewInt(1)), "", 24*time.Hour)
 	}
+}
+
+// modRest = what the swap module account holds in denoms other than denomIn, uusdc and uosmo (summed)
+func (e *env) modRest() sdkmath.Int {
+	t := sdkmath.ZeroInt()
+	for _, c := range e.h.App.BankKeeper.GetAllBalances(e.h.CtxAt(e.now), e.mod) {
+		if c.Denom != e.denomIn && c.Denom != quote && c.Denom != mid {
+			t = t.Add(c.Amount)
+		}
+	}
+	return t
 }
